@@ -22,6 +22,9 @@ pub(crate) fn idct4x4(block: &mut [i32]) {
         let t2 = (fetch(block, 12 + i) * CONST2) >> 16;
         let d1 = t1 + t2;
 
+        #[cfg(image_webp_verif)]
+        crate::verif_hooks::note_transform_values(&[a1, b1, c1, d1, a1 + d1, b1 + c1, a1 - d1, b1 - c1]);
+
         block[i] = (a1 + d1) as i32;
         block[4 + i] = (b1 + c1) as i32;
         block[4 * 3 + i] = (a1 - d1) as i32;
@@ -39,6 +42,9 @@ pub(crate) fn idct4x4(block: &mut [i32]) {
         let t1 = fetch(block, 4 * i + 1) + ((fetch(block, 4 * i + 1) * CONST1) >> 16);
         let t2 = (fetch(block, 4 * i + 3) * CONST2) >> 16;
         let d1 = t1 + t2;
+
+        #[cfg(image_webp_verif)]
+        crate::verif_hooks::note_transform_values(&[a1, b1, c1, d1, a1 + d1 + 4, b1 + c1 + 4, a1 - d1 + 4, b1 - c1 + 4]);
 
         block[4 * i] = ((a1 + d1 + 4) >> 3) as i32;
         block[4 * i + 3] = ((a1 - d1 + 4) >> 3) as i32;
@@ -58,6 +64,9 @@ pub(crate) fn iwht4x4(block: &mut [i32]) {
         let c1 = block[4 + i] - block[8 + i];
         let d1 = block[i] - block[12 + i];
 
+        #[cfg(image_webp_verif)]
+        crate::verif_hooks::note_transform_values(&[a1, b1, c1, d1, a1 + b1, c1 + d1, a1 - b1, d1 - c1].map(i64::from));
+
         block[i] = a1 + b1;
         block[4 + i] = c1 + d1;
         block[8 + i] = a1 - b1;
@@ -74,6 +83,9 @@ pub(crate) fn iwht4x4(block: &mut [i32]) {
         let b2 = c1 + d1;
         let c2 = a1 - b1;
         let d2 = d1 - c1;
+
+        #[cfg(image_webp_verif)]
+        crate::verif_hooks::note_transform_values(&[a1, b1, c1, d1, a2 + 3, b2 + 3, c2 + 3, d2 + 3].map(i64::from));
 
         block[0] = (a2 + 3) >> 3;
         block[1] = (b2 + 3) >> 3;
